@@ -110,7 +110,9 @@ def scn_compose(ctx):
     subs = [dict(i=i, x=ctx.int("x%d" % i), y=ctx.int("y%d" % i)) for i in range(nsub)]
 
     def mk(i):
-        def fn(x, y=None):
+        def fn(x, y=None, timeout=None, retry_policy=None):
+            # (the keyword argument may travel under a name that a layer's own API also uses)
+            y = y if y is not None else (timeout if timeout is not None else retry_policy)
             calls.setdefault(i, []).append((x, y))
             sched.point()
             script("callable", i)
@@ -121,7 +123,19 @@ def scn_compose(ctx):
         for sp in group:
             # how the arguments are passed: positional + keyword, keywords only, positional only
             style = ctx.choice(3, "argstyle%d" % sp["i"]) if p.get("argstyles", True) else 0
-            if style == 0:
+            if p.get("kwnames"):
+                # the callable's own keyword argument is called like a parameter of a layer's submit_* method
+                kw = p["kwnames"][ctx.choice(len(p["kwnames"]), "kwname%d" % sp["i"])]
+                try:
+                    sp["f"] = ex.submit(mk(sp["i"]), sp["x"], **{kw: sp["y"]})
+                except TypeError as e:
+                    ctx.check("submit-accepts-arguments", False, "submit(fn, x, %s=y) raised %r" % (kw, e))
+                    f_ = Future()
+                    f_.set_exception(e)
+                    sp["f"] = f_
+                    sp["refused"] = True
+                ctx.reach("kwname-checked")
+            elif style == 0:
                 sp["f"] = ex.submit(mk(sp["i"]), sp["x"], y=sp["y"])
             elif style == 1:
                 sp["f"] = ex.submit(mk(sp["i"]), x=sp["x"], y=sp["y"])
@@ -199,6 +213,8 @@ def scn_compose(ctx):
     for sp in subs:
         i = sp["i"]
         f = sp["f"]
+        if sp.get("refused"):
+            continue
         o = outcome(f)
         if not ctx.check("future-finishes", o[0] not in ("pending", "cancelled"), "submission %d: %r" % (i, o)):
             continue
@@ -232,7 +248,7 @@ ASSUMPTIONS = ["layer configurations: map(+k), map with an error function (outer
                "scripts: the first two invocations per (function, submission) may raise; submitted arguments are symbolic integers (x positional, y keyword); expected value x*2-y+sum(k) is proved equal by z3"]
 BOUNDS_TEXT = {"quick": "all 7 stacks of depth 1 (P<=1) and all 49 of depth 2 (P=0), over sync and thread_pool(2); 2 submissions from 2 threads",
                "thorough": "depth<=2 at P<=1, depth 3 (all 343) over sync at P=0; seed-selected depth 4-6 stacks at P=0 (beyond the bound, reported separately)"}
-MUST_REACH = {"*": ["value-checked", "error-checked", "error-fn-checked"]}
+MUST_REACH = {"*": ["value-checked", "error-checked", "error-fn-checked", "kwname-checked"]}
 BUDGET = {"quick": 200.0, "thorough": 900.0}
 
 
@@ -258,6 +274,9 @@ def plan(tier, seed):
         items.append(dict(scenario=C, params=dict(layers=[l1, l2], base="sync", script_len=1, nsub=1 if (nh == 2 and q) else 2, threads=1 if (nh == 2 and q) else 2, argstyles=False), bounds=dict(P=0)))
         if not q or nh <= 1:
             items.append(dict(scenario=C, params=dict(layers=[l1, l2], base="pool", script_len=1, nsub=1, threads=1), bounds=dict(P=0)))
+    for ls in (["timeout"], ["retry"], ["timeout", "retry"], ["retry", "map", "timeout"]):
+        # keyword arguments named like parameters of the layers' own submit_timeout / submit_retry
+        items.append(dict(scenario=C, params=dict(layers=ls, base="sync", script_len=1, nsub=1, threads=1, kwnames=["y", "timeout", "retry_policy"]), bounds=dict(P=0)))
     for l1 in LAYERS:
         # a map layer with an error function (recovering with a value / with None / raising) on top
         items.append(dict(scenario=C, params=dict(layers=[l1, "map_err"], base="sync", script_len=1, nsub=1, threads=1), bounds=dict(P=0)))
